@@ -115,7 +115,7 @@ def order_table(wd, rng, A, trees, tier):
         if s in seen:
             continue
         seen.add(s)
-        sample.append((k, a["cxx_type"]))
+        sample.append((k, a["cxx_type"], a["dim"], a["mag"]))
     # generated units from this run's trees: scaled / powered / compound types
     extra = []
     for case in trees:
@@ -125,7 +125,7 @@ def order_table(wd, rng, A, trees, tier):
         if t[0] == "atom" or s in seen:
             continue
         seen.add(s)
-        extra.append((uexpr.show(t), f"UT({uexpr.cxx(t, A, 'unit')})"))
+        extra.append((uexpr.show(t), f"UT({uexpr.cxx(t, A, 'unit')})", d, m))
     rng.shuffle(extra)
     limit = 80 if tier == "quick" else 200
     sample = sample[:limit]
@@ -135,11 +135,19 @@ def order_table(wd, rng, A, trees, tier):
     inc = "\n".join(f'#include "{h}"' for h in A.headers())
     with open(src, "w") as f:
         f.write(PRELUDE % (inc, os.path.join(aulib.HARNESS_INC, "serialize.hh")))
-        for i, (_, ty) in enumerate(sample):
+        for i, (_, ty, _d, _m) in enumerate(sample):
             f.write(f"using S{i} = {ty};\n")
         f.write("template <typename A> void row(int i) {\n  printf(\"R %d \", i);\n")
         for j in range(n):
             f.write(f"  putchar(au::InOrderFor<au::UnitProduct, A, S{j}>::value ? '1' : '0');\n")
+        f.write("  putchar('\\n');\n")
+        # the second and third keys of that ordering on their own: InStandardPackOrder of the dimensions / of the magnitudes
+        f.write("  printf(\"D %d \", i);\n")
+        for j in range(n):
+            f.write(f"  putchar(au::InStandardPackOrder<au::detail::DimT<A>, au::detail::DimT<S{j}>>::value ? '1' : '0');\n")
+        f.write("  putchar('\\n');\n  printf(\"M %d \", i);\n")
+        for j in range(n):
+            f.write(f"  putchar(au::InStandardPackOrder<au::detail::MagT<A>, au::detail::MagT<S{j}>>::value ? '1' : '0');\n")
         f.write("  putchar('\\n');\n}\nint main() {\n")
         for i in range(n):
             f.write(f"  row<S{i}>({i});\n")
@@ -150,11 +158,18 @@ def order_table(wd, rng, A, trees, tier):
         return sample, None, out
     rc, o, e = run([exe])
     rows = [None] * n
+    KEYROWS["D"], KEYROWS["M"] = [None] * n, [None] * n
     for line in o.split("\n"):
         if line.startswith("R "):
             _, i, bits = line.split()
             rows[int(i)] = bits
+        elif line[:2] in ("D ", "M "):
+            k, i, bits = line.split()
+            KEYROWS[k][int(i)] = bits
     return sample, rows, ""
+
+
+KEYROWS = {}      # InStandardPackOrder rows of the last order_table() call: {"D": [...], "M": [...]}
 
 
 def write_order_lean(sample, rows):
@@ -318,6 +333,29 @@ def main(tier, seed):
                     results.setdefault(i, {})[cfg] = kv(line)
     # --- model
     drv = Driver()
+    # the two pack-order keys of the unit ordering (OrderByDim, OrderByMag = InStandardPackOrder on DimT / MagT) against the model's
+    # packLt, which is PROVED to be a strict total order (Lemmas/PackOrder.lean): every ordered pair of the unit sample
+    if rows is not None and KEYROWS.get("D") and all(KEYROWS["D"]) and all(KEYROWS["M"]):
+        n_ = len(sample)
+        preq = []
+        for i in range(n_):
+            for j in range(n_):
+                preq.append(f"packlt dim {aulib.pack_str(sample[i][2], 'dim')} {aulib.pack_str(sample[j][2], 'dim')}")
+                preq.append(f"packlt mag {aulib.pack_str(sample[i][3], 'mag')} {aulib.pack_str(sample[j][3], 'mag')}")
+        pans = drv.ask(preq)
+        bad = 0
+        for i in range(n_):
+            for j in range(n_):
+                md, mm = pans[2 * (i * n_ + j)], pans[2 * (i * n_ + j) + 1]
+                if md != KEYROWS["D"][i][j] or mm != KEYROWS["M"][i][j]:
+                    bad += 1
+                    if bad <= 3:
+                        which = "dimensions" if md != KEYROWS["D"][i][j] else "magnitudes"
+                        violations.append({"what": f"InStandardPackOrder of the {which} of {sample[i][0]} and {sample[j][0]} is "
+                                                   f"{KEYROWS['D' if which == 'dimensions' else 'M'][i][j]}, the model's packLt says {md if which == 'dimensions' else mm}",
+                                           "class": "corr-packorder", "rec": {"kind": "packorder", "a": sample[i][0], "b": sample[j][0], "key": which}})
+        order_stats["pack_order_pairs"] = 2 * n_ * n_
+        order_stats["pack_order_mismatches"] = bad
     req = []
     for c in cases:
         req.append("unit " + uexpr.sexpr(c["tree"], A))
